@@ -4,6 +4,7 @@ import json
 import os
 from concurrent.futures import ThreadPoolExecutor
 
+import scenarios
 import vlib
 
 PROP = "C06"
@@ -54,14 +55,23 @@ def run(tier, seed, t0):
         tcp_consumed, tcp_bad = vlib.validate_traces("TcpTrace", "TcpTrace.cfg", res["files"])
         bad = bad + tcp_bad
         consumed += tcp_consumed
+        # whole client over the in-memory transport: frames close to frame_max under read segmentations that stop
+        # at every stage of such a frame (the frame buffer inside the client may be configured by the connection,
+        # e.g. after tuning, in ways the bare component never is)
+        vlib.build_harness()
+        big = scenarios.generate("bigframe_seg", 40 if not thorough else 400, seed)
+        sfiles, ssumm = vlib.run_sessions(PROP + "-sess", big, tier)
+        sconsumed, sbad = vlib.validate_traces("ConnTrace", "ConnTrace.cfg", sfiles, timeout=1500, xmx="3g")
+        bad = bad + sbad
+        consumed += sconsumed
         mc = [f.result() for f in mcf] + [info]
     finally:
         ex.shutdown(wait=True)
-    v = vlib.Verdict(PROP)
+    v = vlib.Verdict(PROP, own_kinds=("bigframe-",))
     v.absorb(bad)
     vlib.write_evidence(
-        PROP, tier, seed, t0, mc, traces_validated=summ["scenarios"] + res["evaluations"],
-        evaluations=summ["evaluations"] + res["evaluations"], distinct=summ["distinct_nontrivial"] + 6,
+        PROP, tier, seed, t0, mc, traces_validated=summ["scenarios"] + res["evaluations"] + ssumm["scenarios"],
+        evaluations=summ["evaluations"] + res["evaluations"] + len(big), distinct=summ["distinct_nontrivial"] + 6 + len(big),
         rule="a case = (stream of real AMQP frames, plan of segments each ending in would-block / end of stream / "
              "I/O error, read-size policy) run on a fresh real FrameBuffer through a scripted io::Read, one record per "
              "read_from call; TLC computes the expected hand-over from the logged frame sizes and offsets. Enumerated: "
@@ -74,11 +84,13 @@ def run(tier, seed, t0):
              "+-1 around 4096 multiples) singly and in all pairs; random streams x random multi-cuts x random read "
              "sizes; %d graph-walk cases generated by TLC from FrameBuf.tla; plus, with the whole client over loopback "
              "TCP, a heartbeat / Connection.Blocked / Connection.Close right behind Connection.OpenOk in the same write "
-             "or 150 ms later (TcpTrace: a connection is handed out and the frame is acted on either way). non-trivial = some would-block / end of "
+             "or 150 ms later (TcpTrace: a connection is handed out and the frame is acted on either way); plus %d "
+             "sessions over the in-memory transport with body frames of 66 000..131 064 bytes under read plans that stop "
+             "in the header, after 4096 bytes, half-way and just before the end of such a frame (ConnTrace). non-trivial = some would-block / end of "
              "stream / error strictly inside the stream; distinct = distinct (stream, plan, read-size policy)"
              % (len([s for s in summ["streams"] if not s[0].startswith("L-")]),
                 "/".join(str(s[1]) for s in summ["streams"] if not s[0].startswith("L-")),
-                " and all pairs of cuts up to the frame" if thorough else "", summ["tlc_generated_cases"]),
+                " and all pairs of cuts up to the frame" if thorough else "", summ["tlc_generated_cases"], len(big)),
         samples=summ["samples"], verdict=v, exhaustive=True,
         extra={"trace_records_validated": consumed,
                "read_from_calls": summ["calls"], "reads_served": summ["reads"],
